@@ -35,12 +35,16 @@ A = Rat.atom
 C = Rat.const
 
 
-def _parax_step(P, f, y, u, mirror, sym=None):
-    """evaluate Surface._trace_paraxial on a symbolic ray; returns heap."""
+def _parax_step(P, f, y, u, mirror, sym=None, asphere=False):
+    """evaluate Surface._trace_paraxial on a symbolic ray; returns heap.
+    asphere: the geometry is an even asphere with a non-zero r^2 coefficient
+    (atom self.geometry.c[0])."""
     heap = {'rays.y': y, 'rays.u': u, 'rays.z': A('z')}
 
     def inline(call, ev):
         fn = call.func
+        if unparse(fn) in ('np.float64', 'float') and len(call.args) == 1:
+            return ev.ev(call.args[0])
         if isinstance(fn, ast.Attribute) and fn.attr == 'n':
             return A('n1') if 'pre' in unparse(fn.value) else A('n2')
         if isinstance(fn, ast.Attribute) and fn.attr == 'propagate' and \
@@ -57,8 +61,13 @@ def _parax_step(P, f, y, u, mirror, sym=None):
         return None
 
     def choose(test, ev):
-        if 'is_reflective' in unparse(test):
+        src = unparse(test)
+        if 'is_reflective' in src:
             return mirror
+        if 'EvenAsphere' in src:
+            return asphere
+        if src.replace(' ', '') in ('curvature==0', 'curvature==0.0'):
+            return False            # generic: the vertex curvature is not 0
         return None
     fn_eval(P, f, [A('rays')], sym=sym, heap=heap, inline=inline, choose=choose)
     return heap
@@ -98,6 +107,29 @@ def parax_eq(ctx):
                                  f'paraxial surface step differs from the '
                                  f'stated equation: {name}',
                                  construct='paraxial ' + name.split(':')[0]))
+    # even asphere with an r^2 term: the vertex curvature is the second
+    # derivative of the prescribed sag at the vertex, 1/R + 2 c[0]
+    try:
+        har = _parax_step(P, f, y, u, False, asphere=True)
+        ham = _parax_step(P, f, y, u, True, asphere=True)
+    except Inconclusive as e:
+        raise AnalysisError(f'PARAX-EQ (asphere): outside fragment: {e}')
+    cv = ONE / R + C(2) * A('self.geometry.c[0]')
+    wa = (A('n1') * u - y_at * (A('n2') - A('n1')) * cv) / A('n2')
+    for name, ok in (
+            ("even asphere: refraction with curvature 1/R + 2 c[0]",
+             rat_eq(har['rays.u'], wa)),
+            ("even asphere: reflection with curvature 1/R + 2 c[0]",
+             rat_eq(ham['rays.u'], -u - C(2) * y_at * cv))):
+        if ok:
+            res.ok(name)
+        else:
+            res.fail(ctx.finding(
+                'PARAX-EQ', f, f.node,
+                f'paraxial surface step differs from the stated equation: '
+                f'{name} (the r^2 coefficient of the asphere changes the '
+                f'vertex curvature)', construct='paraxial ' + name.split(':')[0]
+                + ' curvature'))
     # image surface: transfer only
     g = P.func('ImageSurface._trace_paraxial')
     res.saw(g)
@@ -674,7 +706,7 @@ def inverted4(ctx):
           unparse(n.func) in ('deepcopy', 'copy.deepcopy')]
     ok1 = dc and unparse(dc[0].args[0]) == 'self.surfaces[::-1]'
     loops = [n for n in ast.walk(f.node) if isinstance(n, ast.For)]
-    ev_ok = {'radius': False, 'z': False, 'swap': False}
+    ev_ok = {'radius': False, 'z': False, 'swap': False, 'asphere': False}
     if loops:
         lp = loops[0]
         var = lp.target.id if isinstance(lp.target, ast.Name) else 'surf'
@@ -686,11 +718,21 @@ def inverted4(ctx):
                     and 'cs.z' in unparse(s.value):
                 zs = unparse(s.value)
                 ev.env[s.targets[0].id] = A('ZLAST')
+        asph = None
         try:
             for s in lp.body:
+                if isinstance(s, ast.If) and 'EvenAsphere' in unparse(s.test):
+                    asph = s
+                    continue
                 ev.stmt(s)
         except Inconclusive as e:
             raise AnalysisError(f'inverted loop: {e}')
+        # mirroring z negates the sag: every even-asphere coefficient changes
+        # sign together with the radius
+        from ..match import find
+        ev_ok['asphere'] = asph is not None and bool(find(
+            ast.Module(body=asph.body, type_ignores=[]),
+            f'{var}.geometry.c = [-$c for $c in {var}.geometry.c]'))
         g = lambda k: heap.get(f'{var}.{k}')
         ev_ok['radius'] = g('geometry.radius') is not None and rat_eq(
             g('geometry.radius'), -A(f'{var}.geometry.radius'))
@@ -710,7 +752,9 @@ def inverted4(ctx):
                      ('loop over the copy', bool(ok_iter)),
                      ('radius negated', ev_ok['radius']),
                      ('z mirrored about the last vertex', ev_ok['z']),
-                     ('media swapped', ev_ok['swap'])):
+                     ('media swapped', ev_ok['swap']),
+                     ('even-asphere coefficients negated with the radius',
+                      ev_ok['asphere'])):
         if ok:
             res.ok('inverted: ' + name)
         else:
@@ -1117,6 +1161,7 @@ def vertex_curvature(ctx):
         raise AnalysisError('EvenAsphere.sag: polynomial term not recognised')
     uses_c = any(isinstance(x, ast.Attribute) and x.attr in ('c', 'coefficients')
                  for x in ast.walk(tp.node))
+    # (that the curvature used is exactly 1/R + 2 c[0] is PARAX-EQ)
     if lowest >= 2 or uses_c:
         res.ok('the asphere polynomial starts at r^4 (or the paraxial trace '
                'adds 2 c[0] to the curvature)')
